@@ -9,7 +9,7 @@ import os
 import shutil
 import tempfile
 
-SALTS = ["backend_moves", "phospho_kappa", "phospho_distribution", "kappa", "deltamax_perm", "pH_extremes", "compfile", "shuffle", "fractions_edit",
+SALTS = ["kappa_x_degenerate", "backend_moves", "phospho_kappa", "phospho_distribution", "kappa", "deltamax_perm", "pH_extremes", "compfile", "shuffle", "fractions_edit",
          "omega", "pI", "reduced", "profiles"]
 
 
@@ -43,6 +43,19 @@ def salt(S, obj, seq, rng, rep, k=None, cheap=False):
                 obj.set_phosphosites(rng.sample(sty, min(len(sty), 2)))
                 obj.get_phosphosequence()
                 obj.clear_phosphosites()
+        elif name == "kappa_x_degenerate":
+            # groupings that do not split the chain: both groups absent, one group covering every residue, one absent group
+            present_ = sorted(set(seq))
+            absent_ = [a for a in "ACDEFGHIKLMNPQRSTVWY" if a not in seq]
+            try:
+                if len(absent_) >= 2:
+                    obj.get_kappa_X([absent_[0]], [absent_[1]])
+                    obj.get_kappa_X(absent_[:1])
+                obj.get_kappa_X(present_)
+                if len(present_) >= 2:
+                    obj.get_kappa_X(present_[:1], present_[1:])
+            except Exception:
+                pass
         elif name == "backend_moves":
             # the permutation moves the sampler uses return NEW objects; the parent must stay what it was
             so = obj.SeqObj
